@@ -415,6 +415,15 @@ type KeyValue interface {
 	Watch(key string, opts ...interface{}) (Watcher, error)
 }
 
+// RevisionDeleter is implemented by stores that can delete a key on condition
+// that it is still at a given revision. If the store of an election implements
+// it, a graceful shutdown with DeleteKey releases the key that way, so that a
+// record a successor has written in the meantime is never removed. The NATS
+// adapter of this package implements it.
+type RevisionDeleter interface {
+	DeleteRevision(key string, rev uint64) error
+}
+
 // JetStreamContext is an abstraction over NATS JetStream context.
 // This interface enables testing with mocks.
 type JetStreamContext interface {
@@ -454,6 +463,11 @@ func (a *natsKeyValueAdapter) Get(key string) (Entry, error) {
 
 func (a *natsKeyValueAdapter) Delete(key string) error {
 	return a.kv.Delete(key)
+}
+
+// DeleteRevision deletes the key only if it is still at revision rev.
+func (a *natsKeyValueAdapter) DeleteRevision(key string, rev uint64) error {
+	return a.kv.Delete(key, nats.LastRevision(rev))
 }
 
 func (a *natsKeyValueAdapter) Watch(key string, opts ...interface{}) (Watcher, error) {
